@@ -345,6 +345,168 @@ fn oracle_fused(profile: &Profile, c: &OpCase) -> Verdict {
     })
 }
 
+// ---------------------------------------------------------------------------
+// Templates for in-place-capable operators that only the optimiser creates
+// ---------------------------------------------------------------------------
+
+#[derive(Clone, Debug, PartialEq, serde::Serialize, serde::Deserialize)]
+struct TplRaw {
+    kind: u8,
+    rank: u8,
+    dims: [u8; 4],
+    p: [u16; 3],
+    data_seed: u16,
+}
+
+#[derive(Clone, Debug, PartialEq, serde::Serialize, serde::Deserialize)]
+enum TplCase {
+    Raw(TplRaw, [u16; 4]),
+    Fixed(Box<Built>, [u16; 4]),
+}
+
+fn tpl_case() -> impl proptest::strategy::Strategy<Value = TplCase> {
+    use proptest::prelude::*;
+    (0u8..5, 1u8..=4, any::<[u8; 4]>(), any::<[u16; 3]>(), any::<u16>(), any::<[u16; 4]>())
+        .prop_map(|(kind, rank, dims, p, data_seed, v)| TplCase::Raw(TplRaw { kind, rank, dims, p, data_seed }, v))
+}
+
+fn tpl_build(r: &TplRaw) -> Built {
+    use vc_onnxgen::*;
+    let rank = (r.rank as usize).clamp(1, 4);
+    let table = [1usize, 2, 3, 4, 5, 7, 8, 16, 17, 33, 2, 3, 1, 4, 6, 2];
+    let mut shape: Vec<usize> = (0..rank).map(|d| table[(r.dims[d] as usize * table.len()) >> 8]).collect();
+    while shape.iter().product::<usize>() > 2048 {
+        let i = (0..rank).max_by_key(|d| shape[*d]).unwrap();
+        shape[i] = (shape[i] / 2).max(1);
+    }
+    let seed = r.data_seed as u32;
+    let val = |k: usize, salt: u32| ((hash32(seed ^ salt, k as u32) % 33) as f64 - 16.0) * 0.25;
+    let dims = |s: &[usize]| s.iter().map(|d| Dim::Fixed(*d as i64)).collect::<Vec<_>>();
+    let lit = |s: &[usize], salt: u32| {
+        let n: usize = s.iter().product();
+        TensorLit::f32(&s.iter().map(|d| *d as i64).collect::<Vec<_>>(), (0..n).map(|k| val(k, salt) as f32).collect())
+    };
+    let mut inputs = vec![ValueInfo::new("x", DType::F32, dims(&shape))];
+    let mut input_data = vec![("x".to_string(), TVal::filled(DType::F32, &shape, |k| val(k, 1)))];
+    let mut inits: Vec<(String, TensorLit)> = Vec::new();
+    let mut nodes: Vec<NodeDef> = Vec::new();
+    // a leading Neg makes `x0` a computed (owned) value, as in a real graph
+    nodes.push(NodeDef::new("Neg", "pre", &["x"], &["x0"]));
+    let mut op_types = vec!["Neg".to_string()];
+    let p = r.p;
+    match r.kind % 5 {
+        0 => {
+            // Silu: x * Sigmoid(x), either operand order
+            nodes.push(NodeDef::new("Sigmoid", "sig", &["x0"], &["s"]));
+            let ins: [&str; 2] = if p[0] & 1 == 0 { ["x0", "s"] } else { ["s", "x0"] };
+            nodes.push(NodeDef::new("Mul", "mul", &ins, &["y"]));
+            op_types.extend(["Sigmoid".into(), "Mul".into()]);
+        }
+        1 => {
+            // AddSoftmax: Softmax(Add(qk, m), axis=-1) with m of the same shape / last dim / leading ones / larger than qk
+            let mshape: Vec<usize> = match p[0] % 4 {
+                0 => shape.clone(),
+                1 => vec![shape[rank - 1]],
+                2 => {
+                    let mut s = shape.clone();
+                    s[0] = 1;
+                    s
+                }
+                _ => {
+                    let mut s = shape.clone();
+                    s.insert(0, 2);
+                    s
+                }
+            };
+            if p[1] & 1 == 0 {
+                inits.push(("m".into(), lit(&mshape, 2)));
+            } else {
+                inputs.push(ValueInfo::new("m", DType::F32, dims(&mshape)));
+                input_data.push(("m".to_string(), TVal::filled(DType::F32, &mshape, |k| val(k, 2))));
+            }
+            let ins: [&str; 2] = if p[1] & 2 == 0 { ["x0", "m"] } else { ["m", "x0"] };
+            nodes.push(NodeDef::new("Add", "add", &ins, &["a"]));
+            nodes.push(NodeDef::new("Softmax", "sm", &["a"], &["y"]).attr("axis", Attr::Int(-1)));
+            op_types.extend(["Add".into(), "Softmax".into()]);
+        }
+        2 => {
+            // TransformInputs(Concat): Concat(x0, Transpose(z)) — the in-place input is not the transformed one
+            if rank < 2 {
+                nodes.push(NodeDef::new("Identity", "id", &["x0"], &["y"]));
+                op_types.push("Identity".into());
+            } else {
+                let axis = p[0] as usize % rank;
+                let mut perm: Vec<usize> = (0..rank).collect();
+                perm.swap(rank - 1, rank - 2);
+                // z's transposed shape must match x except along `axis`
+                let mut tshape = shape.clone();
+                tshape[axis] = 1 + (p[1] % 3) as usize;
+                let zshape: Vec<usize> = {
+                    let mut z = vec![0; rank];
+                    for (i, pi) in perm.iter().enumerate() {
+                        z[*pi] = tshape[i];
+                    }
+                    z
+                };
+                inputs.push(ValueInfo::new("z", DType::F32, dims(&zshape)));
+                input_data.push(("z".to_string(), TVal::filled(DType::F32, &zshape, |k| val(k, 3))));
+                nodes.push(NodeDef::new("Transpose", "tr", &["z"], &["zt"]).attr("perm", Attr::Ints(perm.iter().map(|v| *v as i64).collect())));
+                nodes.push(NodeDef::new("Concat", "cat", &["x0", "zt"], &["y"]).attr("axis", Attr::Int(axis as i64)));
+                op_types.extend(["Transpose".into(), "Concat".into()]);
+            }
+        }
+        3 => {
+            // Swish: x * Sigmoid(alpha * x)
+            inits.push(("alpha".into(), TensorLit::scalar_f32(0.5)));
+            nodes.push(NodeDef::new("Mul", "ax", &["x0", "alpha"], &["axv"]));
+            nodes.push(NodeDef::new("Sigmoid", "sig", &["axv"], &["s"]));
+            nodes.push(NodeDef::new("Mul", "mul", &["x0", "s"], &["y"]));
+            op_types.extend(["Mul".into(), "Sigmoid".into(), "Mul".into()]);
+        }
+        _ => {
+            // Reciprocal: 1 / (|x| + 1)
+            inits.push(("one".into(), TensorLit::scalar_f32(1.0)));
+            nodes.push(NodeDef::new("Abs", "abs", &["x0"], &["ab"]));
+            nodes.push(NodeDef::new("Add", "add", &["ab", "one"], &["p1"]));
+            nodes.push(NodeDef::new("Div", "div", &["one", "p1"], &["y"]));
+            op_types.extend(["Abs".into(), "Add".into(), "Div".into()]);
+        }
+    }
+    let outputs = vec![ValueInfo { name: "y".into(), dtype: Some(DType::F32), shape: None }];
+    let graph = GraphDef { nodes, initializers: inits, inputs, outputs, value_info: vec![] };
+    Built { model: ModelDef::new(graph), inputs: input_data, outputs: vec!["y".into()], values: vec![], op_types }
+}
+
+fn oracle_tpl(c: &TplCase) -> Verdict {
+    let (built, v) = match c {
+        TplCase::Raw(r, v) => (tpl_build(r), *v),
+        TplCase::Fixed(b, v) => ((**b).clone(), *v),
+    };
+    let seed = (v[0] as u32) | ((v[1] as u32) << 16);
+    let bytes = built.model.encode();
+    let model = match vcore::catch(|| Config::OptInferOn.load(&bytes)) {
+        Ok(Ok(m)) => m,
+        Ok(Err(_)) => return Verdict::pass(false).label("load-failed"),
+        Err(_) => return Verdict::pass(false).label("load-panicked"),
+    };
+    in_pool(|| {
+        let (runs, _) = match eval_all(&model, &built.inputs) {
+            Ok(r) => r,
+            Err(_) => return Verdict::pass(false).label("eval-failed"),
+        };
+        let mut st = Stats { labels: vec![], nontrivial: false };
+        for (k, run) in runs.iter().enumerate() {
+            if let Err(v) = check_node(None, run, seed ^ (k as u32 * 0x9E37), &mut st) {
+                return v;
+            }
+            if !vc_ops::classes::REGISTRY.contains(&run.op) && run.base.ok().is_some() && !run.node.operator().in_place_inputs().is_empty() {
+                st.labels.push(intern(&format!("fused-op:{}", run.op)));
+            }
+        }
+        finish(st)
+    })
+}
+
 fn main() {
     let mut ck = Check::new("C13");
     ck.rule(
@@ -364,13 +526,17 @@ fn main() {
     ck.assume("a fresh BufferPool per call and no prepacked weights (both only affect where buffers come from)");
     ck.set_threads(12);
     let profile = Profile::all_ops();
-    let n = ck.pick(80_000, 1_500_000);
+    let n = ck.pick(200_000, 2_000_000);
     ck.prop_export("ops", n, || op_case(1, 2), |c| oracle_ops(&profile, c), |c| c.export(&profile));
     let biased = Profile::inplace_biased();
     ck.prop_export("ops-elementwise", n / 3, || op_case(1, 3), |c| oracle_ops(&biased, c), |c| c.export(&biased));
     let general = Profile::general();
     ck.prop_export("fused", n / 10, || op_case(2, 10), |c| oracle_fused(&general, c), |c| c.export(&general));
     ck.prop_export("fused-elementwise", n / 10, || op_case(2, 8), |c| oracle_fused(&biased, c), |c| c.export(&biased));
+    ck.prop_export("fused-templates", n / 8, tpl_case, oracle_tpl, |c| match c {
+        TplCase::Raw(r, v) => TplCase::Fixed(Box::new(tpl_build(r)), *v),
+        f => f.clone(),
+    });
     vc_ops::classes::record_coverage_of(&mut ck, vc_ops::classes::IN_PLACE_CAPABLE, "op:", "in_place_capable_registry_operators_run_in_place");
     vc_ops::classes::record_coverage_of(&mut ck, vc_ops::classes::IN_PLACE_CAPABLE, "reused:", "in_place_capable_registry_operators_that_reused_the_buffer");
     ck.finish();
